@@ -2,7 +2,14 @@
 
 package pebble
 
-import "github.com/cockroachdb/pebble/internal/manifest"
+import (
+	"sync"
+
+	"github.com/cockroachdb/pebble/internal/manifest"
+)
+
+// verifHeld holds the DBs whose flushes a harness is holding back (VerifHoldFlushes).
+var verifHeld sync.Map
 
 // VerifWaitIdle waits, without any clock, until no flush, compaction or download is running and
 // nothing more gets scheduled: under DB.mu it asks the DB to schedule whatever is pending and waits
@@ -10,10 +17,11 @@ import "github.com/cockroachdb/pebble/internal/manifest"
 func (d *DB) VerifWaitIdle() {
 	d.mu.Lock()
 	defer d.mu.Unlock()
+	_, held := verifHeld.Load(d)
 	for {
 		d.maybeScheduleFlush()
 		d.maybeScheduleCompaction()
-		if d.mu.compact.compactingCount > 0 || d.mu.compact.downloadingCount > 0 || d.mu.compact.flushing {
+		if d.mu.compact.compactingCount > 0 || d.mu.compact.downloadingCount > 0 || (d.mu.compact.flushing && !held) {
 			d.mu.compact.cond.Wait()
 			continue
 		}
@@ -34,4 +42,34 @@ func (d *DB) VerifWaitIdle() {
 func (d *DB) VerifPinnedVersion() (v *manifest.Version, release func()) {
 	rs := d.loadReadState()
 	return rs.current, rs.unref
+}
+
+// VerifHoldFlushes holds back every flush until VerifReleaseFlushes: it waits for a running flush
+// and then marks one as in progress, the knob Pebble's own data-driven tests use
+// (d.mu.compact.flushing = true). Queued flushables (memtables, large batches, ingested tables with
+// their excise spans) then stay in the queue, where reads must see through them. While flushes are
+// held, anything that waits for a flush (Flush, Compact over the memtable, Close, ...) blocks.
+func (d *DB) VerifHoldFlushes() {
+	d.mu.Lock()
+	defer d.mu.Unlock()
+	if _, held := verifHeld.Load(d); held {
+		return
+	}
+	for d.mu.compact.flushing {
+		d.mu.compact.cond.Wait()
+	}
+	d.mu.compact.flushing = true
+	verifHeld.Store(d, struct{}{})
+}
+
+// VerifReleaseFlushes undoes VerifHoldFlushes and schedules whatever is pending.
+func (d *DB) VerifReleaseFlushes() {
+	d.mu.Lock()
+	defer d.mu.Unlock()
+	if _, held := verifHeld.LoadAndDelete(d); !held {
+		return
+	}
+	d.mu.compact.flushing = false
+	d.maybeScheduleFlush()
+	d.mu.compact.cond.Broadcast()
 }
